@@ -301,21 +301,34 @@ func c19ShellQuote(c *Check, a *Anchors) {
 	c.Fn(initFn)
 	info := initFn.Info()
 	okQuote, lang := false, ""
+	var quoteFn *types.Func // the named function registered as shellQuote, if it is one
 	inspectBody(initFn.Body, func(nd ast.Node) bool {
 		kv, ok := nd.(*ast.KeyValueExpr)
 		if !ok || !constIs(info, kv.Key, `"shellQuote"`) {
 			return true
 		}
-		lit, ok := ast.Unparen(kv.Value).(*ast.FuncLit)
-		if !ok {
+		// the entry: a function literal, or a named function of the package
+		var body *ast.BlockStmt
+		var ftype *ast.FuncType
+		finfo := info
+		if lit, ok := ast.Unparen(kv.Value).(*ast.FuncLit); ok {
+			body, ftype = lit.Body, lit.Type
+		} else if fn, ok := callee(info, &ast.CallExpr{Fun: kv.Value}).(*types.Func); ok {
+			if h := c.P.DeclOf(fn); h != nil && h.Decl != nil && h.Pkg.PkgPath == PkgTemplater {
+				body, ftype, finfo = h.Body, h.Type, h.Info()
+				quoteFn = fn
+				c.Fn(h)
+			}
+		}
+		if body == nil {
 			return true
 		}
-		rets := returnsOf(lit.Body)
+		rets := returnsOf(body)
 		if len(rets) == 1 && len(rets[0].Results) == 1 {
 			if call, ok := ast.Unparen(rets[0].Results[0]).(*ast.CallExpr); ok {
-				okq, l := isQuoteBash(info, call)
+				okq, l := isQuoteBash(finfo, call)
 				lang = l
-				if okq && len(lit.Type.Params.List) == 1 && len(lit.Type.Params.List[0].Names) == 1 && varOf(info, call.Args[0]) == info.Defs[lit.Type.Params.List[0].Names[0]] {
+				if okq && len(ftype.Params.List) == 1 && len(ftype.Params.List[0].Names) == 1 && varOf(finfo, call.Args[0]) == finfo.Defs[ftype.Params.List[0].Names[0]] {
 					okQuote = true
 				}
 			}
@@ -330,6 +343,12 @@ func c19ShellQuote(c *Check, a *Anchors) {
 			r, rok := ast.Unparen(as.Rhs[0]).(*ast.IndexExpr)
 			if lok && rok && constIs(info, l.Index, `"q"`) && constIs(info, r.Index, `"shellQuote"`) && varOf(info, l.X) == varOf(info, r.X) {
 				alias = true
+			}
+			// funcs["q"] = shellQuote, the named function that is also registered as "shellQuote"
+			if lok && !rok && constIs(info, l.Index, `"q"`) && quoteFn != nil {
+				if id, ok := ast.Unparen(as.Rhs[0]).(*ast.Ident); ok && info.Uses[id] == types.Object(quoteFn) {
+					alias = true
+				}
 			}
 		}
 		return true
